@@ -539,6 +539,36 @@ fn step(world: &mut World, act: &Value, kernel_access: &mut BTreeSet<u64>) -> Ve
     div
 }
 
+/// Progress record shared with the supervising script through a mapped file,
+/// so it survives a crash of this process: [path index, step index].
+struct Progress(*mut u64);
+
+impl Progress {
+    fn open(path: &str) -> Progress {
+        if path.is_empty() {
+            return Progress(std::ptr::null_mut());
+        }
+        let c = std::ffi::CString::new(path).unwrap();
+        unsafe {
+            let fd = libc::open(c.as_ptr(), libc::O_RDWR | libc::O_CREAT, 0o644);
+            assert!(fd >= 0);
+            libc::ftruncate(fd, 16);
+            let p = libc::mmap(std::ptr::null_mut(), 16, libc::PROT_READ | libc::PROT_WRITE, libc::MAP_SHARED, fd, 0);
+            libc::close(fd);
+            assert!(p != libc::MAP_FAILED);
+            Progress(p.cast())
+        }
+    }
+    fn set(&self, path: u64, step: u64) {
+        if !self.0.is_null() {
+            unsafe {
+                self.0.write_volatile(path);
+                self.0.add(1).write_volatile(step);
+            }
+        }
+    }
+}
+
 fn main() {
     let args: Vec<String> = std::env::args().collect();
     let mut dir = String::new();
@@ -547,6 +577,7 @@ fn main() {
     let (mut from, mut to) = (0usize, usize::MAX);
     let mut out_path = String::new();
     let mut progress_path = String::new();
+    let mut replay_file = String::new();
     let (mut sq_init, mut cq_init) = (0u32, 0u32);
     let mut i = 1;
     while i < args.len() {
@@ -560,6 +591,7 @@ fn main() {
             "--to" => to = v.parse().unwrap(),
             "--out" => out_path = v,
             "--progress" => progress_path = v,
+            "--replay-file" => replay_file = v,
             "--sq-init" => sq_init = v.parse().unwrap(),
             "--cq-init" => cq_init = v.parse().unwrap(),
             other => {
@@ -570,13 +602,28 @@ fn main() {
         i += 2;
     }
     let mut kinds = BTreeMap::new();
+    let acts: Vec<Value>;
+    let paths: Vec<Vec<usize>>;
+    if !replay_file.is_empty() {
+        // A self-contained replay file: {"config": {...}, "path_acts": [...]}.
+        let v: Value = serde_json::from_str(&std::fs::read_to_string(&replay_file).expect("replay file")).unwrap();
+        let c = &v["config"];
+        kinds_arg = c["kinds"].as_str().unwrap_or("").to_string();
+        sqn = c["sqn"].as_u64().unwrap_or(2) as u32;
+        cqn = c["cqn"].as_u64().unwrap_or(2) as u32;
+        sq_init = c["sq_init"].as_u64().unwrap_or(0) as u32;
+        cq_init = c["cq_init"].as_u64().unwrap_or(0) as u32;
+        acts = v["path_acts"].as_array().cloned().unwrap_or_default();
+        paths = vec![(0..acts.len()).collect()];
+    } else {
+        acts = serde_json::from_str(&std::fs::read_to_string(format!("{dir}/acts.json")).expect("acts.json")).unwrap();
+        let paths_text = std::fs::read_to_string(format!("{dir}/paths.jsonl")).expect("paths.jsonl");
+        paths = paths_text.lines().map(|l| serde_json::from_str(l).unwrap()).collect();
+    }
     for part in kinds_arg.split(',').filter(|p| !p.is_empty()) {
         let (o, k) = part.split_once('=').expect("--kinds o=kind,...");
         kinds.insert(o.parse::<u64>().unwrap(), k.to_string());
     }
-    let acts: Vec<Value> = serde_json::from_str(&std::fs::read_to_string(format!("{dir}/acts.json")).expect("acts.json")).unwrap();
-    let paths_text = std::fs::read_to_string(format!("{dir}/paths.jsonl")).expect("paths.jsonl");
-    let paths: Vec<Vec<usize>> = paths_text.lines().map(|l| serde_json::from_str(l).unwrap()).collect();
     let mut out: Box<dyn std::io::Write> =
         if out_path.is_empty() { Box::new(std::io::stdout()) } else { Box::new(std::fs::File::create(&out_path).unwrap()) };
 
@@ -586,19 +633,19 @@ fn main() {
     events::install();
 
     let to = to.min(paths.len());
+    let progress = Progress::open(&progress_path);
     let mut steps = 0u64;
     let mut diverged = 0u64;
     let mut covered: BTreeSet<usize> = BTreeSet::new();
     for pi in from..to {
-        if !progress_path.is_empty() {
-            let _ = std::fs::write(&progress_path, format!("{pi}\n"));
-        }
+        progress.set(pi as u64, 0);
         let path = &paths[pi];
         let mut world = World::new(&kinds, sqn, cqn, sq_init, cq_init);
         let mut kernel_access = BTreeSet::new();
         let mut first: Option<(usize, Vec<Divergence>)> = None;
         for (si, ai) in path.iter().enumerate() {
             let act = &acts[*ai];
+            progress.set(pi as u64, si as u64);
             let div = step(&mut world, act, &mut kernel_access);
             steps += 1;
             if !div.is_empty() {
@@ -608,6 +655,7 @@ fn main() {
             covered.insert(*ai);
         }
         let examined = first.as_ref().map_or(path.len(), |(si, _)| *si + 1);
+        progress.set(pi as u64, path.len() as u64);
         let (leaks, incidents, _notes, teardown_panic) = world.finish();
         let mut records = Vec::new();
         if let Some((si, divs)) = first {
@@ -643,6 +691,7 @@ fn main() {
             }
         }
     }
+    progress.set(u64::MAX, 0);
     writeln!(
         out,
         "{}",
